@@ -91,6 +91,26 @@ def _split_top_commas(args):
     return [p.strip() for p in parts]
 
 
+def _split_top_commas_angle(args):
+    """Like _split_top_commas but `<...>` also nests (type contexts)."""
+    ct = code_tokens(lex(args))
+    parts, depth, last = [], 0, 0
+    for i, t in enumerate(ct):
+        if t.kind == "punct" and t.text in "([{<":
+            depth += 1
+        elif t.kind == "punct" and t.text in ")]}":
+            depth -= 1
+        elif t.kind == "punct" and t.text == ">" and not (i > 0 and ct[i - 1].text == "-"):
+            depth -= 1
+        elif t.kind == "punct" and t.text == "," and depth == 0:
+            parts.append(args[last:t.start])
+            last = t.end
+    tail = args[last:]
+    if tail.strip():
+        parts.append(tail)
+    return [p.strip() for p in parts]
+
+
 def rule_D6(text, log):
     calls = _find_macro_calls(text, "debug_assert_eq")
     for (s, e, args) in reversed(calls):
@@ -129,10 +149,24 @@ def rule_D7(text, log, index_bases):
     for (s, e, args) in reversed(_find_macro_calls(text, "panic")):
         text = text[:s] + "diverge()" + text[e:]
         n += 1
-    # x[i] -> checked_index(x, i) for the listed base expressions (given in the directive, e.g. "slice")
-    for base in index_bases:
+    # x[i] -> checked indexing model for the base expressions listed in the directive:
+    #   base:ref   `base[i]` (auto-referenced place of non-Copy type) and `&base[i]`  ->  checked_index_ref(base, i)
+    #   base:val   `base[i]` read by value (Copy)                                    ->  (*checked_index_ref(base, i))
+    #   base:vec   `base[i]` on a `&Vec<T>` read by value                            ->  (*checked_index_vec(base, i))
+    for spec in index_bases:
+        base, _, mode = spec.partition(":")
+        mode = mode or "val"
         rx = re.compile(r"(?<![A-Za-z0-9_.])(&?)" + re.escape(base) + r"\[([^\[\]]+)\]")
-        text, k = rx.subn(lambda m: f"{m.group(1)}checked_index({base}, {m.group(2)})", text)
+
+        def rep(m):
+            if mode == "vec":
+                return f"(*checked_index_vec({base}, {m.group(2)}))"
+            if mode == "ref" or m.group(1) == "&":
+                return f"checked_index_ref({base}, {m.group(2)})"
+            return f"(*checked_index_ref({base}, {m.group(2)}))"
+        text, k = rx.subn(rep, text)
+        if k == 0:
+            raise ExtractError(f"D7: indexing of {base!r} not found (anchor lost)")
         n += k
     if n:
         log.append(f"D7 x{n}")
@@ -235,8 +269,9 @@ def find_loops(body):
 
 
 class World:
-    def __init__(self, tmpl_path, repo, canary_mode=False):
+    def __init__(self, tmpl_path, repo, canary_mode=False, flags=()):
         self.canary_mode = canary_mode
+        self.flags = set(flags) | ({"canary"} if canary_mode else set())
         self.tmpl_path = tmpl_path
         self.repo = repo
         self.files = {}
@@ -283,8 +318,25 @@ class World:
                 clause_tags = {}
                 loops = {}
                 cur = contract
+                fs_mode = "failstop" in self.flags and d.get("failstop") == "1"
+                if fs_mode:
+                    d["reading"] = "failstop"
+                    d["id"] = d["id"] + "@failstop"
+                    if "fstags" in d:
+                        d["tags"] = d["fstags"]
+                        d.pop("safety", None)
+                elif "failstop" in self.flags:
+                    d["shadow"] = "1"
                 while i < len(tl) and tl[i].strip() != "//@end":
                     t = tl[i].strip()
+                    if t.startswith("//@F|"):
+                        if not fs_mode:
+                            i += 1
+                            continue
+                        t = "//@|" + t[5:]
+                    elif t.startswith("//@|") and fs_mode and d.get("fsreplace", "1") == "1":
+                        i += 1
+                        continue
                     if t.startswith("//@|"):
                         c = t[4:]
                         m = re.match(r"\s*\[([A-Za-z0-9_.\-]+)(?:\s+@([A-Z0-9,]+))?\]\s*(.*)", c)
@@ -305,9 +357,11 @@ class World:
                     raise WorldError("unterminated //@fn block")
                 i += 1
                 self.emit_fn(d, contract, loops, indent=re.match(r"\s*", ln).group(0), clause_tags=clause_tags)
-            elif s == "//@if canary":
+            elif s.startswith("//@if ") or s.startswith("//@ifnot "):
+                neg = s.startswith("//@ifnot ")
+                on = (s.split()[1] in self.flags) != neg
                 i += 1
-                if not self.canary_mode:
+                if not on:
                     while i < len(tl) and tl[i].strip() != "//@endif":
                         i += 1
                     i += 1
@@ -353,8 +407,17 @@ class World:
             text = "pub " + text
         mt = re.match(r"(pub\s+struct\s+[A-Za-z0-9_]+\s*(?:<[^()]*>)?\s*)\((.*)\)\s*;\s*$", text, flags=re.S)
         if mt and d.get("kind", "struct") == "struct":
-            fields = ["pub " + re.sub(r"^pub\s+", "", f) for f in _split_top_commas(mt.group(2))]
+            fields = ["pub " + re.sub(r"^pub\s+", "", f) for f in _split_top_commas_angle(mt.group(2))]
             text = mt.group(1) + "(" + ", ".join(fields) + ");"
+        if "erase" in d:
+            lt = "'" + d["erase"]
+            n0 = text.count(lt)
+            text = re.sub(r"<\s*" + lt + r"\s*,\s*", "<", text)
+            text = re.sub(r"<\s*" + lt + r"\s*>", "", text)
+            text = re.sub(r"&\s*" + lt + r"\b", "&'static", text)
+            if lt in text:
+                raise ExtractError(f"struct {d['name']}: lifetime {lt} not fully erased (outside the dialect)")
+            log.append(f"D1 x{n0}")
         if "subst" in d:
             for pair in d["subst"].split(";;"):
                 a, b = pair.split("=>")
@@ -363,9 +426,19 @@ class World:
                 text = text.replace(a, b)
                 log.append(f"D13 {a}=>{b}")
         if "header" in d:
-            # replace the header (generics/bounds) by the world's
-            k = text.index("{")
-            text = d["header"] + " " + text[k:]
+            # replace the header (generics/bounds) by the world's; a where-clause after tuple fields is dropped
+            if d.get("tuple") == "1":
+                ct = code_tokens(lex(text))
+                k = next(i for i, t in enumerate(ct) if t.text == "(")
+                j = match_bracket(ct, k)
+                text = d["header"] + text[ct[k].start:ct[j].end] + ";"
+            else:
+                k = text.index("{")
+                text = d["header"] + " " + text[k:]
+        mt = re.match(r"(pub\s+struct\s+[A-Za-z0-9_]+\s*(?:<.*?>)?\s*)\((.*)\)\s*;\s*$", text, flags=re.S)
+        if mt and d.get("tuple") == "1":
+            fields = ["pub " + re.sub(r"^pub\s+", "", f) for f in _split_top_commas_angle(mt.group(2))]
+            text = mt.group(1) + "(" + ", ".join(fields) + ");"
         self.emit("\n".join(indent + l for l in text.split("\n")), part="struct", fn=None)
         self.functions.append(dict(id=f"{d.get('kind','struct')}:{d['name']}", file=d["file"], line=it.line, end_line=it.end_line,
                                    hash=body_hash(it.text), rules=log + ["D10"], kind="type"))
@@ -409,7 +482,7 @@ class World:
                 body = body[:offs[k]] + "\n" + inv + "\n" + indent + "    " + body[offs[k]:]
         elif find_loops(body) and d.get("loops") != "none":
             raise ExtractError(f"{fid}: body has a loop but the contract has no invariant for it (outside the dialect)")
-        if d.get("canary") != "none":
+        if d.get("canary") != "none" and d.get("shadow") != "1":
             c = make_canary(len(self.canaries), fid, head, contract, self.cur_impl[1] if self.cur_impl else None)
             if c:
                 self.canaries.append((c[0], fid, c[1]))
@@ -423,6 +496,7 @@ class World:
                                    hash=body_hash(it.text), rules=log, tags=[t for t in d.get("tags", "").split(",") if t],
                                    reading=d.get("reading", "total"), kind="fn",
                                    clauses=[l for (l, _) in contract if l], cex=d.get("cex"),
+                                   shadow=d.get("shadow") == "1",
                                    clause_tags=clause_tags or {}, safety_tags=[t for t in d.get("safety", d.get("tags", "")).split(",") if t]))
 
 
@@ -535,8 +609,8 @@ def make_canary(k, fid, head, contract, impl_header):
     return name, text
 
 
-def build(tmpl_path, repo, out_path, canary_mode=False):
-    w = World(tmpl_path, repo, canary_mode)
+def build(tmpl_path, repo, out_path, canary_mode=False, flags=()):
+    w = World(tmpl_path, repo, canary_mode, flags)
     text = w.generate()
     os.makedirs(os.path.dirname(out_path), exist_ok=True)
     with open(out_path, "w") as f:
